@@ -16,6 +16,14 @@ func nilOfKind(nk string) ap.Item {
 	if nk == "nil" {
 		return nil
 	}
+	switch nk {
+	case "*IRI":
+		return (*ap.IRI)(nil)
+	case "*IRIs":
+		return (*ap.IRIs)(nil)
+	case "*ItemCollection":
+		return (*ap.ItemCollection)(nil)
+	}
 	return reflect.Zero(reflect.PtrTo(goTypes[strings.TrimPrefix(nk, "*")])).Interface().(ap.Item)
 }
 
@@ -187,6 +195,24 @@ func init() {
 		}
 		return cl, "none"
 	}
+	pageNew := func(it ap.Item, ordered bool) (string, string) {
+		var parent ap.CollectionInterface
+		if it != nil {
+			ci, ok := it.(ap.CollectionInterface)
+			if !ok {
+				return "neutral", "none" // not a possible argument
+			}
+			parent = ci
+		}
+		if ordered {
+			ap.OrderedCollectionPageNew(parent)
+		} else {
+			ap.CollectionPageNew(parent)
+		}
+		return "neutral", "none"
+	}
+	topHelpers["CollectionPageNew"] = func(it ap.Item) (string, string) { return pageNew(it, false) }
+	topHelpers["OrderedCollectionPageNew"] = func(it ap.Item) (string, string) { return pageNew(it, true) }
 	topHelpers["JSONWriteIRIProp"] = func(it ap.Item) (string, string) {
 		b := []byte{'{'}
 		ap.JSONWriteIRIProp(&b, "x", it)
@@ -267,6 +293,8 @@ func containerFor(pos string, it ap.Item) []ap.Item {
 		&ap.Activity{ID: "https://example.com/a", Type: ap.CreateType, Actor: it, Object: it, Target: it},
 		&ap.Actor{ID: "https://example.com/p", Type: ap.PersonType, Inbox: it, Icon: it},
 		&ap.Collection{ID: "https://example.com/c", Type: ap.CollectionType, First: it, Current: it},
+		&ap.Activity{ID: "https://example.com/b", Type: ap.BlockType, Actor: ap.IRI("https://example.com/p"), Object: it, To: ap.ItemCollection{ap.IRI("https://example.com/q")}},
+		&ap.Question{ID: "https://example.com/q", Type: ap.QuestionType, Actor: it, OneOf: it, AnyOf: it},
 	}
 	// every item-typed property of every struct type, one at a time (found by reflection over the jsonld-tagged fields)
 	itemT := reflect.TypeOf((*ap.Item)(nil)).Elem()
